@@ -73,11 +73,12 @@ OBJ_CLASSES = {
     'RegionRef': {'kind': 'name', 'name': 'name'},
     'ConcealedRegionView': {'scfg': 'SCFG'},
     'FlowInfo': {'block_offsets': 'set[int]', 'jump_insts': 'dict[int,list[int]]', 'last_offset': 'int'},
-    'WBlock': {'name': 'name', 'instructions': 'list[int]', 'jump_targets': 'list[name]', 'last_kind': 'int'},
+    'WritableASTBlock': {'name': 'name', 'instructions': 'list[node]', 'jump_targets': 'list[name]'},
 }
 OBJ_MODULE = {
     'SCFG': 'numba_scfg.core.datastructures.scfg',
     'NameGenerator': 'numba_scfg.core.datastructures.scfg',
     'ConcealedRegionView': 'numba_scfg.core.datastructures.scfg',
     'FlowInfo': 'numba_scfg.core.datastructures.flow_info',
+    'WritableASTBlock': 'numba_scfg.core.datastructures.ast_transforms',
 }
